@@ -721,3 +721,176 @@ pub fn mutate(rng: &mut Rng, b: &[u8]) -> Vec<u8> {
     }
     v
 }
+
+/// containers in which a forward RJUMPI lands on an immediate byte of a later instruction, that
+/// byte being an opcode that is only safe in validated positions (RETF, CALLF, JUMPF, EOFCREATE,
+/// RETURNCONTRACT). Correct validation rejects every one of them (JumpToImmediateBytes); if a
+/// validator accepts one, executing it reaches exactly the paths that assume a valid container.
+pub fn gen_immediate_landing(rng: &mut Rng) -> Vec<u8> {
+    let harmful = *rng.pick(&[0xe4u8, 0xe3, 0xe5, 0xec, 0xee, 0xe4, 0xe4]);
+    // prefix: PUSH1 1; RJUMPI <off>   (5 bytes; off is relative to the byte after the RJUMPI)
+    let mut code: Vec<u8> = vec![0x60, 0x01, 0xe1, 0x00, 0x00];
+    let after_jump = code.len();
+    let target; // absolute position of the immediate byte to land on
+    let mut max_stack = 1u16;
+    match rng.below(5) {
+        0 | 1 => {
+            // PUSHn with the harmful byte at a chosen immediate position
+            let n = 1 + rng.usize(32);
+            let k = if rng.chance(1, 2) { n - 1 } else { rng.usize(n) };
+            let mut imm = rng.bytes(n);
+            imm[k] = harmful;
+            code.push(0x5f + n as u8);
+            target = code.len() + k;
+            code.extend_from_slice(&imm);
+            code.push(0x50);
+            code.push(0x00);
+        }
+        2 | 3 => {
+            // PUSH0; RJUMPV max_index, table whose chosen byte is the harmful opcode
+            let cases = 1 + rng.usize(3);
+            code.push(0x5f);
+            code.push(0xe2);
+            code.push((cases - 1) as u8);
+            let table = code.len();
+            for _ in 0..cases {
+                code.extend_from_slice(&[0x00, 0x00]);
+            }
+            // land on the last byte of the table (low byte of the last offset) or on any table byte
+            let k = if rng.chance(2, 3) { 2 * cases - 1 } else { rng.usize(2 * cases) };
+            code[table + k] = harmful;
+            target = table + k;
+            // every offset must still be a valid forward target: pad with NOPs far enough
+            let mut need = 0usize;
+            for c in 0..cases {
+                let off = u16::from_be_bytes([code[table + 2 * c], code[table + 2 * c + 1]]) as usize;
+                need = need.max(off);
+            }
+            if need > 40_000 {
+                // a harmful high byte makes the offset negative or huge: keep it small instead
+                code[table + k] = 0x00;
+                let kk = 2 * cases - 1;
+                code[table + kk] = harmful;
+                need = harmful as usize;
+                return finish_landing(code, after_jump, table + kk, need, max_stack);
+            }
+            return finish_landing(code, after_jump, target, need, max_stack);
+        }
+        _ => {
+            // three items, then DUPN/SWAPN/EXCHANGE whose immediate is the harmful byte
+            code.extend_from_slice(&[0x5f, 0x5f, 0x5f]);
+            max_stack = 3;
+            let op = *rng.pick(&[0xe6u8, 0xe7, 0xe8]);
+            code.push(op);
+            target = code.len();
+            code.push(harmful);
+            // the immediate demands a deep stack: pad pushes so that the instruction itself is valid
+            // is not needed for the jump check (it comes first in validation)
+            code.extend_from_slice(&[0x50, 0x50, 0x50, 0x00]);
+        }
+    }
+    finish_landing(code, after_jump, target, 0, max_stack)
+}
+
+fn finish_landing(mut code: Vec<u8>, after_jump: usize, target: usize, pad_to: usize, max_stack: u16) -> Vec<u8> {
+    // pad with NOPs (JUMPDEST in EOF) so that RJUMPV offsets stay inside the section, then STOP
+    if pad_to > 0 {
+        let mut pad = vec![0x5b; pad_to + 1];
+        pad.push(0x00);
+        code.extend(pad);
+    }
+    let off = (target - after_jump) as u16;
+    code[3..5].copy_from_slice(&off.to_be_bytes());
+    let types = [(0u8, 0x80u8, max_stack.max(1))];
+    encode(&types, &[code], &[], &[], 0)
+}
+
+/// structured header mutations of a valid container (section headers the byte-level mutator
+/// practically never produces)
+pub fn mutate_header(rng: &mut Rng, b: &[u8]) -> Vec<u8> {
+    let mut v = b.to_vec();
+    // locate the data-section header: ... 04 <size:2> 00 <body>; walk the header
+    let mut i = 3;
+    let mut pos_code = None;
+    let mut pos_container = None;
+    let mut pos_data = None;
+    while i < v.len() {
+        match v[i] {
+            0x01 => i += 3,
+            0x02 => {
+                pos_code = Some(i);
+                if i + 2 >= v.len() {
+                    break;
+                }
+                let n = u16::from_be_bytes([v[i + 1], v[i + 2]]) as usize;
+                i += 3 + 2 * n;
+            }
+            0x03 => {
+                pos_container = Some(i);
+                if i + 2 >= v.len() {
+                    break;
+                }
+                let n = u16::from_be_bytes([v[i + 1], v[i + 2]]) as usize;
+                i += 3 + 2 * n;
+            }
+            0x04 => {
+                pos_data = Some(i);
+                break;
+            }
+            _ => break,
+        }
+    }
+    match rng.below(7) {
+        0 | 1 if pos_container.is_none() => {
+            // a container-section header that announces zero containers
+            if let Some(d) = pos_data {
+                v.splice(d..d, [0x03, 0x00, 0x00]);
+            }
+        }
+        2 => {
+            // zero code sections
+            if let Some(c) = pos_code {
+                if c + 2 < v.len() {
+                    v[c + 1] = 0;
+                    v[c + 2] = 0;
+                }
+            }
+        }
+        3 => {
+            // types size zero / not a multiple of four
+            if v.len() > 5 {
+                let x = *rng.pick(&[0u16, 1, 3, 5, 0xffff]);
+                v[4..6].copy_from_slice(&x.to_be_bytes());
+            }
+        }
+        4 => {
+            // a code section of size zero
+            if let Some(c) = pos_code {
+                if c + 4 < v.len() {
+                    v[c + 3] = 0;
+                    v[c + 4] = 0;
+                }
+            }
+        }
+        5 => {
+            // duplicate the data header
+            if let Some(d) = pos_data {
+                if d + 3 <= v.len() {
+                    let h: Vec<u8> = v[d..d + 3].to_vec();
+                    v.splice(d..d, h);
+                }
+            }
+        }
+        _ => {
+            // container count larger than what follows
+            if let Some(c) = pos_container {
+                if c + 2 < v.len() {
+                    v[c + 2] = v[c + 2].wrapping_add(1 + rng.below(3) as u8);
+                }
+            } else if let Some(d) = pos_data {
+                v.splice(d..d, [0x03, 0x00, 0x01, 0x00, 0x00]);
+            }
+        }
+    }
+    v
+}
